@@ -41,7 +41,11 @@ META = {
                "gateway call duration 0..2 rounds for the first 3 (thorough 5) gateway calls, start delay of the "
                "other callers 0..2 rounds (symbolic)",
                "one gateway fault, one cancellation (symbolic position), exceptions on/off",
-               "drivers: HID (Tridonic and hasseb share hid.send/run_sequence), LUBA, SCI"],
+               "drivers: HID (Tridonic and hasseb share hid.send/run_sequence), LUBA, SCI",
+               "real gateway layer (nothing stubbed below the driver): LUBA / SCI driver + protocol object with "
+               "two callers, one solver-chosen written frame answered by an error status or by silence; real "
+               "Tridonic driver with a sequence sleeping inside its transaction, the adapter lost and "
+               "reconnected during the sleep (or not), the other caller starting at one of five moments"],
     "stubs": ["gateway layer replaced by a recording stub with symbolic duration/outcome"],
     "outside": ["more than 3 concurrent callers", "fairness of asyncio.Lock beyond the explored bounds",
                 "interleavings inside the gateway layer (C16/C17)"],
